@@ -231,6 +231,37 @@ pub fn run(ctx: &mut Ctx) {
             }
         }
     }
+    // explain_matching can explain every disposal that a *year-filtered* calculate_report lists — also when the ledger
+    // has disposals in another tax year for which no exemption is configured (the all-years report of such a ledger
+    // fails; the single-year report and the explanation of its disposals must not). Seed C20-s10: explain_matching
+    // computed the all-years report.
+    {
+        let answer = |s: &Session, id: u64| s.responses.iter().find(|v| v["id"].as_u64() == Some(id)).cloned();
+        for (k, (early, far)) in [("2019-01-10", "2026-06-01"), ("2009-01-10", "2027-01-15"), ("2009-01-10", "2010-06-01"), ("2019-01-10", "2031-04-06")].iter().enumerate() {
+            ctx.ev.evaluations += 1;
+            ctx.ev.count("sessions:year-filter-next-to-unsupported-year");
+            let mut lines = vec![format!("{early} BUY ACME 100 @ 10"), "2024-06-01 SELL ACME 40 @ 15".to_string(), "2024-06-20 BUY ACME 5 @ 14".to_string(), "2025-04-05 SELL ACME 3 @ 16 FEES 1".to_string(), format!("{far} SELL ACME 10 @ 20")];
+            if k % 2 == 1 { lines.swap(1, 4); }
+            let text = lines.join("\n") + "\n";
+            let s1 = session(&[call(1, "calculate_report", json!({"transactions": text, "year": 2024}))], false);
+            let Some(a) = answer(&s1, 1) else { ctx.ev.violation("oracle", "calculate_report(year=2024) was not answered".into(), format!("# property C20\n{text}")); continue };
+            let Some(body) = result_text(&a) else { ctx.ev.violation("oracle", format!("calculate_report(year=2024) fails on a ledger whose 2024/25 disposals are covered: {}", a["error"]["message"].as_str().unwrap_or("").lines().next().unwrap_or("")), format!("# property C20\n{text}")); continue };
+            let b: Value = serde_json::from_str(&body).unwrap_or_default();
+            let mut ex_reqs = vec![];
+            if let Some(ys) = b["tax_years"].as_array() { for y in ys { if let Some(ds) = y["disposals"].as_array() { for d in ds { ex_reqs.push(call(700 + ex_reqs.len() as u64, "explain_matching", json!({"transactions": text, "ticker": d["ticker"], "disposal_date": d["date"]}))); } } } }
+            if ex_reqs.len() != 2 { ctx.ev.violation("oracle", format!("calculate_report(year=2024) lists {} disposals, the ledger has two in 2024/25", ex_reqs.len()), format!("# property C20\n{text}")); }
+            if ex_reqs.is_empty() { continue; }
+            let s2 = session(&ex_reqs, k % 2 == 0);
+            for rq in &ex_reqs {
+                let id = rq["id"].as_u64().unwrap_or(0);
+                match answer(&s2, id) {
+                    None => ctx.ev.violation("oracle", "an explain_matching request was not answered".into(), format!("# property C20\n{text}")),
+                    Some(v) if v.get("error").is_some() => ctx.ev.violation("oracle", format!("explain_matching cannot explain the {} disposal that calculate_report(year=2024) lists: {}", rq["params"]["arguments"]["disposal_date"].as_str().unwrap_or("?"), v["error"]["message"].as_str().unwrap_or("").lines().filter(|l| !l.trim().is_empty()).nth(1).unwrap_or("")), format!("# property C20\n# session: calculate_report(ledger, year=2024), then explain_matching for each disposal it lists\n{text}")),
+                    Some(_) => {}
+                }
+            }
+        }
+    }
     // a long run of failures must leave no trace: 12–30 failing requests of every kind (unparsable and empty
     // ledgers, uncovered sales, unknown disposals, wrong argument types) to calculate_report and
     // explain_matching, then the same good requests as in a fresh session — same answers, equal to the CLI's
